@@ -35,6 +35,7 @@ fn thin_jobs(prop: &'static str, max_ops: usize, cases: u64, flavours: &[&'stati
         v.push(jobb(thin_engine("1/16", prop, max_ops), cases / 2, fl));
         v.push(jobb(thin_engine("16/1", prop, max_ops), cases / 2, fl));
         v.push(jobb(thin_engine("4/4", prop, max_ops), cases / 2, fl));
+        v.push(jobb(thin_engine("8b/z", prop, max_ops), cases / 4, fl));
     }
     v
 }
